@@ -21,7 +21,7 @@ pub const URI_B: &str = "file:///w/b.st";
 
 pub const TEXTS: [(&str, &str); 6] = [
     ("V", "TYPE Level : (Low, High) := Low; END_TYPE\nFUNCTION_BLOCK FbV\nVAR\n  a : INT;\nEND_VAR\n  a := 1;\nEND_FUNCTION_BLOCK\n"),
-    ("X", "FUNCTION_BLOCK FbX\nVAR\n  a : INT;\nEND_VAR\n  (* \u{e9} *) a := ?;\nEND_FUNCTION_BLOCK\n"),
+    ("X", "FUNCTION_BLOCK FbX\nVAR\n  a : INT;\nEND_VAR\n  (* \u{e9} *) a := ?;\n  a := a ! 1;\nEND_FUNCTION_BLOCK\n"),
     ("S", "FUNCTION_BLOCK FbS\nVAR\n  a : INT;\nEND_VAR\n\n  a := ;\nEND_FUNCTION_BLOCK\n"),
     ("M", "FUNCTION_BLOCK FbM\nVAR\n  a : INT;\nEND_VAR\n  a := 1;\n  (* \u{e9}\u{20ac} *) undeclared := 2;\nEND_FUNCTION_BLOCK\n"),
     ("D", "FUNCTION_BLOCK FbD\nVAR\n  lv : Level := Low;\nEND_VAR\nEND_FUNCTION_BLOCK\n"),
